@@ -478,8 +478,12 @@ def check_channels(run, cx, cfg):
             bad = 'expected a single path'
         else:
             p = ps[0]
-            maps = [(k, e) for k, e in call_events(p) if rp(e) == 'core::option::Option::<T>::map']
+            # Option::map(|s| { ..; s }) or Option::inspect(|_| { .. }): both run the closure exactly for Some and hand the sample on
+            maps = [(k, e) for k, e in call_events(p) if rp(e) in ('core::option::Option::<T>::map', 'core::option::Option::<T>::inspect')]
             first = maps[0][1]['args'][0] if maps else ('x',)
+            # `.copied()` / `.cloned()` on the Option<&S> is the spelling of `.map(|&s| s)`
+            while first[0] == 'ret' and rp(p['events'][first[1]]) in ('core::option::Option::<&T>::copied', 'core::option::Option::<&T>::cloned'):
+                first = p['events'][first[1]]['args'][0]
             if not (first[0] == 'app' and first[1] == 'dasp_frame::Frame::channel' and first[2] == (('ref', self_loc(fi)), self_field(ni))):
                 bad = 'must read frame.channel(next_idx)'
             elif heap_writes(p):
@@ -493,7 +497,7 @@ def check_channels(run, cx, cfg):
                     for cp in cps:
                         w = cp['writes'].get(self_loc(ni))
                         if w is not None:
-                            adv = (w == ('op', 'Add', self_field(ni), ('int', 1, 'usize')) and cp['ret'] == ('s',))
+                            adv = (w == ('op', 'Add', self_field(ni), ('int', 1, 'usize')) and (cp['ret'] == ('s',) or rp(e).endswith('::inspect')))
                 if not adv:
                     bad = 'a yielded channel must advance next_idx by exactly one and pass the sample through'
         run.check(bad is None, 'frame.channels-iter', fn, cfg, bad or '', where=where(body))
